@@ -7,8 +7,8 @@ import aquacrop.solution.rainfall_partition as M
 
 def _configs(tier):
     out = []
-    soils = [("SandyLoam", 46), ("Clay", 77)] if tier == "quick" else [("SandyLoam", 46), ("Clay", 77), ("Loam", 61), ("SiltClay", 72), ("Sand", 46)]
-    dzsets = [[0.1, 0.2]] if tier == "quick" else [[0.1, 0.2], [0.1, 0.1, 0.1], [0.05, 0.15, 0.2]]
+    soils = [("SandyLoam", 46), ("Clay", 77)] if tier == "quick" else [("SandyLoam", 46), ("Clay", 77), ("Loam", 61), ("SiltClay", 72)]
+    dzsets = [[0.1, 0.2]] if tier == "quick" else [[0.1, 0.2], [0.1, 0.1, 0.1]]
     for soil, cn in soils:
         for dzs in dzsets:
             for adj_cn in (1, 0):
